@@ -34,6 +34,19 @@ def query_roots(P):
         if not fs:
             raise AnalysisBroken("query root %s not found" % qn)
         roots.extend(fs)
+    # the C and C++ interface wrappers answer queries too (everything in wrapper_c.cc / wrapper_cpp.cc except the
+    # functions that create and destroy a world)
+    nw = 0
+    for F in P.funcs.values():
+        base = F.file.rsplit("/", 1)[-1]
+        if base in ("wrapper_c.cc", "wrapper_cpp.cc"):
+            nm = F.qn.split("::")[-1]
+            if nm in ("create_world", "release_world", "WorldBuilderWrapper", "~WorldBuilderWrapper"):
+                continue
+            roots.append(F)
+            nw += 1
+    if nw < 13:
+        raise AnalysisBroken("only %d interface wrapper functions found (13 confirmed by hand)" % nw)
     return roots
 
 
@@ -123,6 +136,8 @@ def run(P, rep, roots, rule="PURE", allow_param_writes=(), stream_rule=None, pid
             elif root[0] == "param":
                 if (F.qn, root[1]) in allow_param_writes:
                     continue
+                if F.file.endswith("wrapper_c.cc") and root[1] == len(F.params) - 1 and P.d(F.params[-1]).get("t", "").replace(" ", "") == "double*":
+                    continue    # the C interface returns through its last parameter, a double* (documented out-parameter)
                 rep.violation(rule, "root %s writes through parameter %d" % (F.qn, root[1]), site[0].nloc(site[1]),
                               F.qn, " <- ".join(origin(site)), "a query writes into its caller's argument",
                               key="%s|root-param|%s|%d" % (rule, F.qn, root[1]))
